@@ -10,9 +10,9 @@ META = {
     "text": "Theorems in coq/Properties_C09.v: every operator family of the list model of LoopSIMD is lane-wise; nested lane index is "
             "div/mod of the flattened index; the S-lane LU (per-lane pivot search with cond, per-lane row swaps, nonsingularLanes mask, "
             "throwEarly) over an uninterpreted carrier returns in lane l exactly the operation tree of the scalar LU on the lane-l matrix "
-            "(solve, invert: unless some lane is singular, then FMatrixError; determinant: every lane, for the repaired select-after-product "
-            "code; refuted for the code as it stood); mv and infinity_norm lane-wise (the latter refuted for the code as it stood: HasNaN not "
-            "forwarded); the literal per-lane swap loops equal the model's gather.  Tied to dune/common/simd/loop.hh, interface.hh, "
+            "(solve, invert: unless some lane is singular, then FMatrixError; determinant: every lane; the pre-1209091 select-before-product "
+            "code kept as a refuted history statement); mv and infinity_norm lane-wise (pre-1037165 HasNaN-not-forwarded code refuted as history); "
+            "the literal per-lane swap loops (rows, rhs, column un-permutation) equal the model's gathers.  Tied to dune/common/simd/loop.hh, interface.hh, "
             "defaults.hh, standard.hh and densematrix.hh on every run (operator table along the extracted lane plan, matrices bit for bit, "
             "valgrind memcheck for dependence on uninitialised lanes).",
     "note": "Trusted: Coq kernel, extraction, OCaml driver (IEEE doubles as carrier), C++ harness, g++ -ffp-contract=off -fwrapv; "
@@ -175,7 +175,7 @@ class OpGen:
         if isbool:
             for n in ("band", "bor", "bxor"): binary(n, ["vv", "vs", "sv", "avv", "avs"], pairs)
         for n in CMP: binary(n, ["vv", "vs", "sv"], pairs)
-        for n in LOGIC: binary(n, ["vv", "vs"] + ([] if nested else ["sv"]), pairs)
+        for n in LOGIC: binary(n, ["vv", "vs"] + ([] if (nested and not getattr(self.ctx, "nested_sv", False)) else ["sv"]), pairs)
         if isfp:
             for n in MATH:
                 if nested and n in MATH_NONEST: continue
@@ -437,11 +437,33 @@ def lu_oracle(case, impl):
 
 
 # ------------------------------------------------------------------------------------------------ run
+def probe_nested_sv(ctx):
+    """compile probe: scalar && nested-LoopSIMD (every combination of V and its scalar type must be accepted)"""
+    try:
+        V.cxx(ctx, [os.path.join(H, "probe_nested_sv.cc")], ctx.path("probe_nested_sv"), repo_srcs=[], timeout=300)
+        rc, out = V.sh([ctx.path("probe_nested_sv")], timeout=30)
+        if rc != 0:
+            ctx.violation("C09:op:land:sv:nested-wrong", {"case": "2.0 && LoopSIMD<LoopSIMD<double,2>,3>(1.0)", "impl": "probe exit %s" % rc,
+                                                          "oracle": "all lanes must be true"})
+        return True
+    except V.BuildError as e:
+        log = str(e)
+        m = re.search(r"error: [^\n]*", log)
+        ctx.violation("C09:op:land:sv:nested-no-compile",
+                      {"case": "2.0 && LoopSIMD<LoopSIMD<double,2>,3>  /  0.0 || LoopSIMD<LoopSIMD<double,2>,3>  (harness/C09/probe_nested_sv.cc)",
+                       "impl": "does not compile: " + (m.group(0)[:300] if m else log[-300:]),
+                       "oracle": "simd/interface.hh: operators accept arbitrary combinations of V and its scalar type; lane l must be (s && lane(l,v)); "
+                                 "vector && scalar compiles, scalar && vector does not for nested LoopSIMD"})
+        return False
+
+
 def build(ctx, Slist):
     fl = ["-fwrapv", "-ffp-contract=off"]
+    ctx.nested_sv = probe_nested_sv(ctx)
     jobs = []
     for S in [0] + Slist:
-        jobs.append(dict(srcs=[os.path.join(H, "ops.cc")], out=ctx.path("ops%d" % S), repo_srcs=[], flags=fl + ["-DC09_LANES=%d" % S]))
+        jobs.append(dict(srcs=[os.path.join(H, "ops.cc")], out=ctx.path("ops%d" % S), repo_srcs=[],
+                         flags=fl + ["-DC09_LANES=%d" % S] + (["-DC09_NESTED_SV_LOGIC=1"] if ctx.nested_sv else [])))
     for S in Slist:
         jobs.append(dict(srcs=[os.path.join(H, "lu.cc")], out=ctx.path("lu%d" % S), flags=fl + ["-DC09_LANES=%d" % S]))
     if Slist:
@@ -540,10 +562,7 @@ def judge_lu(ctx, cases, impl, mo, stats):
                 sv = af[0].split() if len(af) == 2 else []
                 inf_simd = " ".join(sv[S:2 * S])
                 inf_scal = " ; ".join(x.split()[1] if len(x.split()) > 1 else "?" for x in (af[1].split(" ; ") if len(af) == 2 else []))
-                oknan, okplain = inf_simd == mf[0], len(mf) > 2 and inf_simd == mf[2]
-                if oknan: stats["infnorm_matches_model_hasnan_variant"] += 1
-                if okplain: stats["infnorm_matches_model_plain_variant"] += 1
-                agree = (oknan or okplain) and inf_scal == mf[1]
+                agree = inf_simd == mf[0] and inf_scal == mf[1]
             if agree:
                 stats["model_agreements"] += 1
             else:
@@ -554,14 +573,7 @@ def judge_lu(ctx, cases, impl, mo, stats):
                                    "oracle": "accepts impl output" if verdict is None else verdict[1]}, found_input=verdict is not None)
         if modelled:
             af = lu_split(a)
-            if kind == "det":
-                okfixed = len(af) == 2 and af[0] == mf[0] and af[1] == mf[1]
-                okcur = len(af) == 2 and af[0] == mf[2] and af[1] == mf[3]
-                if okfixed: stats["det_matches_model_select_after_product"] += 1
-                if okcur: stats["det_matches_model_select_before_product"] += 1
-                agree = okfixed or okcur
-            else:
-                agree = len(af) == 2 and af[0] == mf[0] and af[1] == mf[1]
+            agree = len(af) == 2 and af[0] == mf[0] and af[1] == mf[1]
             if agree:
                 stats["model_agreements"] += 1
             else:
@@ -645,9 +657,7 @@ def run(ctx):
     ctx.log("dense matrices: %d cases" % len(lcases))
     limpl, lmo = run_lu(ctx, model, lcases)
     stats = {"kinds": {}, "singular_step": {}, "cases_lanes_pivot_differently": 0, "cases_with_row_swap": 0, "cases_mixed_singular_regular": 0,
-             "cases_lane_singular_while_other_continues": 0, "model_agreements": 0,
-             "det_matches_model_select_after_product": 0, "det_matches_model_select_before_product": 0,
-             "infnorm_matches_model_hasnan_variant": 0, "infnorm_matches_model_plain_variant": 0}
+             "cases_lane_singular_while_other_continues": 0, "model_agreements": 0}
     nviol, ndis = judge_lu(ctx, lcases, limpl, lmo, stats)
     stats["memcheck_cases"] = 0
     memcheck(ctx, Slist, lcases, limpl, stats)
@@ -694,6 +704,11 @@ def run(ctx):
 def replay(ctx, path):
     rep = json.load(open(path))
     case = rep["case"]
+    if "nested" in rep.get("signature", "") and not case.startswith(("op ", "lu ", "dlu ")):
+        ok = probe_nested_sv(ctx)
+        print("case  :", case); print("impl  :", "compiles and all lanes true" if ok and not ctx.viol else (ctx.viol[0][1].get("impl") if ctx.viol else "?"))
+        print("oracle:", "accepts" if ok and not ctx.viol else "REJECTS (scalar-first logical operator on nested LoopSIMD)")
+        return 0 if ok and not ctx.viol else 1
     model = V.build_model(ctx)
     S = int(case.split()[2 if case.startswith("op") else 3])
     Slist = [S] if S else []
